@@ -1,9 +1,141 @@
-(* C01 — testscript verdict.  This file contains only the property theorems, each closed by
-   [exact] of a lemma proved in TsRun/TsRunFacts.v, with Print Assumptions beneath it. *)
+(* C01 — testscript verdict: a script passes iff every executed line meets its demand.
+   This file contains only the property theorems, each closed by [exact] of a lemma proved
+   in TsRun/TsRunFacts.v, with Print Assumptions beneath it.  The interpreter is TsRun/TsRun.v
+   (run_line, run_lines, run_script, cli_exit); the declarative reading of "meets its demand"
+   is TsRun/TsSpec.v (demand_met, skip_met, unmet, lines_met, all_met, exec_all). *)
 From Coq Require Import List Bool Arith NArith.
 From Coq.Strings Require Import Byte.
-From GI Require Import Lib.Bytes Gen.TsRunConsts Txtar.Txtar TsRun.TsFs TsRun.TsState TsRun.TsCmds TsRun.TsRun TsRun.TsRunFacts.
+From GI Require Import Lib.Bytes Gen.TsRunConsts Txtar.Txtar
+  TsRun.TsFs TsRun.TsState TsRun.TsCmds TsRun.TsRun TsRun.TsSpec TsRun.TsRunFacts.
 Import ListNotations.
+
+(* one line: the interpreter returns normally exactly when the declarative demand is met *)
+Theorem C01_line_done_iff : forall cfg st line st',
+  run_line cfg st line = Done st' <-> demand_met cfg st line st'.
+Proof. exact line_done_iff. Qed.
+Print Assumptions C01_line_done_iff.
+
+Theorem C01_line_failed_iff : forall cfg st line,
+  (exists st', run_line cfg st line = Failed st') <-> unmet cfg st line.
+Proof. exact line_failed_iff. Qed.
+Print Assumptions C01_line_failed_iff.
+
+(* verdict_pass_iff, for every script text, every initial state, every Params *)
+Theorem C01_verdict_pass_iff : forall cfg text st0,
+  r_verdict (run_script cfg text st0) = Pass
+  <-> exists stF, all_met cfg (script_lines text) 0 false st0 stF.
+Proof. exact verdict_pass_iff. Qed.
+Print Assumptions C01_verdict_pass_iff.
+
+Theorem C01_run_pass_iff : forall cfg text st0 stF,
+  run_script cfg text st0 = {| r_verdict := Pass; r_final := stF; r_fail_lines := [] |}
+  <-> all_met cfg (script_lines text) 0 false st0 stF.
+Proof. exact run_pass_iff. Qed.
+Print Assumptions C01_run_pass_iff.
+
+(* verdict_fail_first *)
+Theorem C01_verdict_fail_first : forall cfg text st0 n stF,
+  c_continue cfg = false ->
+  (run_script cfg text st0 = {| r_verdict := Fail n; r_final := stF; r_fail_lines := [n] |}
+   <-> exists pre l post st1,
+         script_lines text = pre ++ l :: post /\ n = S (length pre)
+         /\ lines_met cfg pre 0 false st0 st1 /\ is_comment l = false
+         /\ unmet cfg (at_line n false st1) l
+         /\ stF = line_effects cfg (at_line n false st1) l).
+Proof. exact verdict_fail_first. Qed.
+Print Assumptions C01_verdict_fail_first.
+
+Theorem C01_fail_line_logged : forall cfg text st0 n,
+  c_continue cfg = false ->
+  r_verdict (run_script cfg text st0) = Fail n -> r_fail_lines (run_script cfg text st0) = [n].
+Proof. exact fail_line_logged. Qed.
+Print Assumptions C01_fail_line_logged.
+
+Theorem C01_later_lines_irrelevant : forall cfg pre l post post' n st st1,
+  c_continue cfg = false ->
+  lines_met cfg pre n false st st1 -> is_comment l = false ->
+  unmet cfg (at_line (S (n + length pre)) false st1) l ->
+  run_lines cfg (pre ++ l :: post) n false st = run_lines cfg (pre ++ l :: post') n false st.
+Proof. exact later_lines_irrelevant. Qed.
+Print Assumptions C01_later_lines_irrelevant.
+
+(* continue_runs_all *)
+Theorem C01_continue_iff : forall cfg ls n f st k stF U,
+  c_continue cfg = true ->
+  (run_lines cfg ls n f st = (k, stF, U) <-> exec_all cfg ls n f st k stF U).
+Proof. exact continue_iff. Qed.
+Print Assumptions C01_continue_iff.
+
+Theorem C01_continue_runs_all : forall cfg text st0,
+  c_continue cfg = true ->
+  exists k stF U,
+    exec_all cfg (script_lines text) 0 false st0 k stF U
+    /\ run_script cfg text st0 = {| r_verdict := mk_verdict k U; r_final := stF; r_fail_lines := U |}
+    /\ ((exists n, r_verdict (run_script cfg text st0) = Fail n) <-> U <> [])
+    /\ (U <> [] -> r_verdict (run_script cfg text st0) = Fail (hd 0 U)).
+Proof. exact continue_runs_all. Qed.
+Print Assumptions C01_continue_runs_all.
+
+Theorem C01_stop_passes : forall cfg pre l post st0 st1 st2,
+  lines_met cfg pre 0 false st0 st1 -> is_comment l = false ->
+  demand_met cfg (at_line (S (length pre)) false st1) l st2 -> s_stopped st2 = true ->
+  run_lines cfg (pre ++ l :: post) 0 false st0 = (EPass, end_bg st2, []).
+Proof. exact stop_passes. Qed.
+Print Assumptions C01_stop_passes.
+
+Theorem C01_stop_cmd_stops : forall cfg args st,
+  length args <= 1 ->
+  cmd_sem cfg (CBuiltin [x73; x74; x6f; x70]) false args st = Done (set_stopped st true).
+Proof. exact stop_cmd_stops. Qed.
+Print Assumptions C01_stop_cmd_stops.
+
+Theorem C01_skip_skips : forall cfg pre l post st0 st1 st2,
+  lines_met cfg pre 0 false st0 st1 -> is_comment l = false ->
+  skip_met cfg (at_line (S (length pre)) false st1) l st2 ->
+  run_lines cfg (pre ++ l :: post) 0 false st0 = (ESkip, st2, []).
+Proof. exact skip_skips. Qed.
+Print Assumptions C01_skip_skips.
+
+Theorem C01_skip_after_failure_fails : forall cfg pre l post n st st1 st2,
+  lines_met cfg pre n true st st1 -> is_comment l = false ->
+  skip_met cfg (at_line (S (n + length pre)) true st1) l st2 ->
+  run_lines cfg (pre ++ l :: post) n true st = (EFail, st2, []).
+Proof. exact skip_after_failure_fails. Qed.
+Print Assumptions C01_skip_after_failure_fails.
+
+Theorem C01_skip_cmd_skips : forall cfg args st,
+  length args <= 1 -> s_bg st = [] ->
+  cmd_sem cfg (CBuiltin [x73; x6b; x69; x70]) false args st
+  = SkipNow (set_bg (set_outerr (set_bg st []) [] []) []).
+Proof. exact skip_cmd_skips. Qed.
+Print Assumptions C01_skip_cmd_skips.
+
+Theorem C01_guard_false_noop : forall cfg st line words,
+  tokenise (s_env st) line = Some words -> guards_block cfg st words ->
+  run_line cfg st line = Done st.
+Proof. exact guard_false_noop. Qed.
+Print Assumptions C01_guard_false_noop.
+
+Theorem C01_neg_flips_exec : forall cfg args st s,
+  fg_args args ->
+  (cmd_exec cfg true args st = Done s <-> cmd_exec cfg false args st = Failed s)
+  /\ (cmd_exec cfg true args st = Failed s <-> cmd_exec cfg false args st = Done s).
+Proof. exact neg_flips_exec. Qed.
+Print Assumptions C01_neg_flips_exec.
+
+Theorem C01_unknown_cmd_fails : forall cfg st line words cw neg name args,
+  tokenise (s_env st) line = Some words -> guards_pass cfg st words cw ->
+  split_neg cw = Some (neg, name, args) -> lookup_cmd cfg name = None ->
+  run_line cfg st line = Failed st.
+Proof. exact unknown_cmd_fails. Qed.
+Print Assumptions C01_unknown_cmd_fails.
+
+Theorem C01_neg_unsupported_fails : forall cfg st line name args,
+  In name neg_rejecting_cmds ->
+  reaches cfg st line true (CBuiltin name) args ->
+  run_line cfg st line = Failed st.
+Proof. exact neg_unsupported_fails. Qed.
+Print Assumptions C01_neg_unsupported_fails.
 
 Theorem C01_cli_exit_iff : forall cfg batch,
   cli_exit cfg batch = 0%N <->
